@@ -50,6 +50,11 @@ pub fn builtin() -> Vec<(&'static str, String)> {
             format!("functie f() {{ 0 }}; stel w = [{}]; f(); stel laat = [string(7), 2.5 + 1.0]; f(); f(); [laat, w[0], w[{}], lengte(w)]", wide.join(", "), n - 1),
         ));
     }
+    // more than 65 536 bytes of straight-line code (no jump crosses it) with heap literals in front
+    out.push((
+        "very-long-straight-line-program",
+        format!("stel s = \"lit\"; stel f = 2.5; {}[s, f, string(3)]", "1; ".repeat(23_000)),
+    ));
     let pending: Vec<String> = (0..220).map(|i| format!("g({})", i)).collect();
     out.push(("hundreds-of-pending-operands", format!("functie g(n) {{ string(n) }}; [{}]", pending.join(", "))));
     let long: String = (0..300).map(|i| char::from(b'a' + (i % 26) as u8)).collect();
